@@ -140,7 +140,8 @@ type allowEvent struct {
 	Panic  bool    `json:"panic"`
 }
 
-var alphabet = []rune{'*', '*', '*', '/', '.', '\n', 'a', 'b', '+', '\\', '[', ']', '$', '^', '(', ')', '?', '|', '{', '}', 'é', '世', ' ', '\U0001F511', ' ', '\t', '\r', 0, '-', '_'}
+var alphabet = []rune{'*', '*', '*', '/', '.', '\n', 'a', 'b', '+', '\\', '[', ']', '$', '^', '(', ')', '?', '|', '{', '}', 'é', '世', ' ', '\U0001F511', ' ', '\t', '\r', 0, '-', '_',
+	'\\', 'E', 'Q', 'E', 'd', 'w', 'z', 'A', 'x', 'p'} // letters that mean something after a backslash in regular-expression dialects
 
 // TestRandom records the real matcher's answers on generated inputs as a trace
 // that TLC validates against Glob!Match / ACL!Allow (direction B).
